@@ -123,12 +123,15 @@ impl Prop for C11 {
     fn id(&self) -> &'static str {
         "C11"
     }
+    fn isolate(&self) -> bool {
+        true
+    }
     fn level(&self) -> &'static str {
         "exploration"
     }
     fn n_cases(&self, tier: Tier) -> u64 {
         match tier {
-            Tier::Quick => 40000,
+            Tier::Quick => 24000,
             Tier::Thorough => 600000,
         }
     }
